@@ -1,0 +1,16 @@
+//go:build verif
+
+// Contracts for the deductive verifier in /verif (govc); comments only.
+package replayfilter
+
+// ghost log of the filter as seen by callers
+//@ ghostfield replayfilter.ReplayFilter ntests Int
+//@ ghostfield replayfilter.ReplayFilter lasttested BSeq
+//@ ghostfield replayfilter.ReplayFilter lastseen Bool
+
+//@ func (*ReplayFilter).TestAndSet(f, now, buf) (seen)
+//@   serves C11 C04
+//@   nobody caller-visible ghost log only; the set semantics of the filter are the subject of C11
+//@   requires f != nil
+//@   modifies f.*
+//@   ensures f.ntests == old(f.ntests) + 1 && f.lasttested == seq(buf) && f.lastseen == seen
